@@ -468,6 +468,7 @@ func run(c *fw.Ctx) {
 		f()
 	}
 	deferred = nil
+	concPart(c, nil) // parts (b) and (c)
 	if c.Shard == 0 {
 		var ms runtime.MemStats
 		runtime.ReadMemStats(&ms)
@@ -505,11 +506,14 @@ func envFor(name string) (*pool.Env, bool) {
 }
 
 func replay(c *fw.Ctx, raw json.RawMessage) {
-	var k kase
-	if err := json.Unmarshal(raw, &k); err != nil {
+	if err := pool.Boot(); err != nil {
 		panic(err)
 	}
-	if err := pool.Boot(); err != nil {
+	if replayConc(c, raw) {
+		return
+	}
+	var k kase
+	if err := json.Unmarshal(raw, &k); err != nil {
 		panic(err)
 	}
 	env, expiry := envFor(k.Universe)
@@ -531,6 +535,7 @@ func main() {
 			"over a closed universe of colliding transactions (same sender nonces n,n,n+1,n+2; one RequestId transaction; one second object with the hash of n+1), up to the depth bound, breadth-first with dedup on " +
 			"(implementation dump, model state); each history is executed on a fresh real TxPool (replay + one op); after every op the return value, the pool dump and IsExisted/GetTransaction of every hash are compared with refpool. " +
 			"A history is counted as non-trivial if it contains a MarkExecuted or a PackForCast that returned a non-empty batch; histories are distinct by construction. A packed batch stays available for MarkExecuted while other blocks are marked/unmarked, unless one of its transactions got executed meanwhile. " +
+			"Part (b): 2- and 3-thread scenarios over colliding transactions (add vs mark of the same transaction, re-add vs mark, add vs add, pack vs mark, unmark vs add, unmark vs pack, mark-with-eviction vs add, add+pack+mark) run on the real pool under a cooperative scheduler with a scheduling point before every statement of transaction_pool.go / simple_container.go: every interleaving with at most 2 (quick) / 3 (thorough) preemptions; the results and the final pool dump must be explained by some sequential order on refpool (a duplicate submission of a still-pending transaction may return either answer). Part (c): the same thread bodies free-running under the race detector. " +
 			"Plus 60 scenarios of 199..250 transactions around the per-block limit of 200 (5 shapes x 4 sizes x 3 insertion orders: add all, pack, block, pack, block, pack, unmark, pack, unmark, pack).",
 		Assumptions: []string{
 			"node fixture: dev genesis, block height 20 = every proposal of the dev table active except the unreachable 025 (checkNonce on, proposal-023 batch ordering); thorough repeats a depth-7 exploration at height 11 (023 off, 021 ordering); accept-all consensus stub (not on the path)",
